@@ -79,10 +79,15 @@ def prepare(cfg):
         i = norm.index(planted[k], pos)
         offs[k] = i
         pos = i + len(planted[k])
+    # an expression that is empty after its type prefix: the reported token is the empty text behind the prefix
+    STATE['tokens'] = {k: ('' if planted[k] == 'python:' else planted[k].strip()) for k in planted}
+    for k in offs:
+        if planted[k] == 'python:':
+            offs[k] += len('python:')
     STATE['offsets'] = offs
     STATE['locations'] = {}
     for k in offs:
-        j = offs[k] + (len(planted[k]) - len(planted[k].lstrip()))
+        j = offs[k] + (0 if planted[k] == 'python:' else (len(planted[k]) - len(planted[k].lstrip())))
         before = norm[:j]
         STATE['locations'][k] = (before.count('\n') + 1, len(before) - (before.rfind('\n') + 1))
     STATE['planted'] = planted
@@ -103,7 +108,7 @@ def check(mk):
     if planted:
         st = STATE['strict']
         first = min(planted)
-        if st[0] != 'invalid' or st[1] != planted[first].strip() or st[2] != STATE['offsets'][first]:
+        if st[0] != 'invalid' or st[1] != STATE['tokens'][first] or st[2] != STATE['offsets'][first]:
             return False
         if st[3] != STATE['locations'][first]:
             return False                      # line / column of the strict report
@@ -117,7 +122,7 @@ def check(mk):
         # the reference reached planted site k -> the same ExpressionError, located at that site
         k = ref[4][0]
         return eng[0] == 'exc' and eng[1] == 'ExpressionError' and \
-            eng[3] == (planted[k].strip(), STATE['offsets'][k]) and eng[4] == STATE['locations'][k]
+            eng[3] == (STATE['tokens'][k], STATE['offsets'][k]) and eng[4] == STATE['locations'][k]
     if not hG._agree1(eng, ref):
         return False
     if not planted:
